@@ -53,7 +53,8 @@ def const_templates():
 
 def pairs(tier):
     bases = families.arith(consumers=('cmp', 'widen', 'local')) + families.arithlit(types=[I32, U16, I64] if tier == 'quick' else families.INTS, tier=tier) + families.compare(types=[I8, I32, U16, I64]) + families.unary(types=[I8, I32, U16]) \
-        + families.control() + families.composites() + const_templates()
+        + families.control() + families.composites() + const_templates() \
+        + [t for t in families.castuse(tier) if re.search(r'castuse/(cmp|widen)/', t.id)]
     if tier == 'quick':
         # every 3rd arithmetic base in quick; everything in thorough
         keep = []
@@ -68,6 +69,10 @@ def pairs(tier):
     for t in bases:
         for kind, rw in rewrites.REWRITES.items():
             if kind == 'iftrue_ret' and t.family not in ('control', 'cmp'):
+                continue
+            if t.family == 'castuse' and kind != 'bindcast':
+                continue
+            if kind == 'bindcast' and t.family not in ('castuse', 'cmp'):
                 continue
             if kind == 'lit2call' and 'fixedindex' in t.id:
                 continue   # documented exception: a fixed-array index must remain a compile-time constant
